@@ -1,2 +1,896 @@
+import NeatviVerif.Model.ExCmd
+import NeatviVerif.Props.C01
+/-!
+# C03  Writes never clobber foreign or newer files; failures surface and stay dirty
+-/
 namespace Neatvi.Props.C03
+open Neatvi Neatvi.Lbuf Neatvi.LbufIo Neatvi.Ex Neatvi.Props.C01
+
+/-! ### names for the intermediate values of `lbufSave` -/
+
+/-- the end line `lbuf_save` uses: a negative `end` means "to the last line" -/
+def endLine (lb : Lb) (e : Int) : Nat := if e < 0 then lb.lines.length else e.toNat
+
+/-- both guards of `lbuf_save` let the write through -/
+def GuardsPass (ed : Ed) (path : Bytes) (force : Bool) (ts : Int) : Prop :=
+  force = true ∨ (¬ ed.mtimeOf path > ts ∧ ¬ (ts ≤ 0 ∧ ed.mtimeOf path ≥ 0))
+
+/-- what the target held before the write -/
+def oldData (ed : Ed) (path : Bytes) : Bytes := ((ed.findFile path).map (·.data)).getD []
+
+/-- the state after a successful `open(O_WRONLY | O_CREAT)` -/
+def afterOpen (ed : Ed) (path : Bytes) : Ed :=
+  let ed1 := ed.nextFault.2
+  { ed1.putFile ⟨path, oldData ed1 path, ed1.clock + 1⟩ with clock := ed1.clock + 1 }
+
+/-- the outcomes scheduled for the write calls -/
+def schedOf (ed : Ed) (n : Nat) : List WOut :=
+  (List.range (n + 8)).map (fun k =>
+    match (ed.faults.find? (fun f => f.1 == ed.calls + k)).map (·.2) with
+    | some 101 => WOut.err
+    | some d => if 49 ≤ d && d ≤ 57 then WOut.cnt (d - 48) else WOut.cnt 1000000000
+    | none => WOut.cnt 1000000000)
+
+/-- the fuel the model gives `write_fully` -/
+def fuelOf (lb : Lb) : Nat := (lb.lines.foldl (fun m l => max m l.length) Gen.WR_BATCH + 8) * 2
+
+/-- the state after the write calls ended in `st` -/
+def afterWrite (ed2 : Ed) (path old : Bytes) (n : Nat) (st : WrState) : Ed :=
+  let used := (schedOf ed2 n).length - st.sched.length
+  let okCalls := used - (if st.ok then 0 else 1)
+  { ed2.putFile ⟨path, fileAfter old st.out (if st.ok then some st.sz else none), ed2.clock + okCalls⟩ with
+    clock := ed2.clock + okCalls, calls := ed2.calls + used }
+
+/-- `lbufSave` once the guards and the open have passed (in the shape of the model) -/
+theorem lbufSave_eq' (ed : Ed) (lb : Lb) (b : Nat) (e : Int) (path : Bytes) (force : Bool) (ts : Int)
+    (hg : GuardsPass ed path force ts) (ho : ed.nextFault.1 ≠ 101) :
+    lbufSave ed lb b e path force ts =
+      match wrFinal lb.lines b (endLine lb e) Gen.WR_BATCH (fuelOf lb) (schedOf (afterOpen ed path) (endLine lb e - b)) with
+      | none => none
+      | some st =>
+        let ed3 := afterWrite (afterOpen ed path) path (oldData ed.nextFault.2 path) (endLine lb e - b) st
+        if !st.ok then some (some (strOf "write failed"), ed3.nextFault.2)
+        else if ed3.nextFault.1 == 101 then some (some (strOf "write failed"), ed3.nextFault.2)
+           else some (none, ed3.nextFault.2) := by
+  have h1 : (!force && decide (ed.mtimeOf path > ts)) = false := by
+    rcases hg with h | ⟨h, _⟩ <;> simp [h]
+  have h2 : (!force && decide (ts ≤ 0) && decide (ed.mtimeOf path ≥ 0)) = false := by
+    rcases hg with h | ⟨_, h⟩
+    · simp [h]
+    · simp only [Bool.and_eq_false_iff, decide_eq_false_iff_not, Bool.and_assoc]
+      by_cases h3 : ts ≤ 0
+      · right; right; exact fun h4 => h ⟨h3, h4⟩
+      · right; left; exact h3
+  unfold lbufSave
+  simp only [h1, h2, Bool.false_eq_true, if_false]
+  have h3 : (ed.nextFault.1 == 101) = false := by simp [ho]
+  simp only [h3, Bool.false_eq_true, if_false]
+  rfl
+
+/-- the three ways `lbufSave` can end once the guards and the open have passed -/
+theorem lbufSave_cases (ed : Ed) (lb : Lb) (b : Nat) (e : Int) (path : Bytes) (force : Bool) (ts : Int)
+    (hg : GuardsPass ed path force ts) (ho : ed.nextFault.1 ≠ 101) :
+    (wrFinal lb.lines b (endLine lb e) Gen.WR_BATCH (fuelOf lb) (schedOf (afterOpen ed path) (endLine lb e - b)) = none ∧
+      lbufSave ed lb b e path force ts = none) ∨
+    ∃ st, wrFinal lb.lines b (endLine lb e) Gen.WR_BATCH (fuelOf lb) (schedOf (afterOpen ed path) (endLine lb e - b)) = some st ∧
+      let ed3 := afterWrite (afterOpen ed path) path (oldData ed.nextFault.2 path) (endLine lb e - b) st
+      ((st.ok = false ∧ lbufSave ed lb b e path force ts = some (some (strOf "write failed"), ed3.nextFault.2)) ∨
+       (st.ok = true ∧ ed3.nextFault.1 = 101 ∧
+          lbufSave ed lb b e path force ts = some (some (strOf "write failed"), ed3.nextFault.2)) ∨
+       (st.ok = true ∧ ed3.nextFault.1 ≠ 101 ∧ lbufSave ed lb b e path force ts = some (none, ed3.nextFault.2))) := by
+  rw [lbufSave_eq' ed lb b e path force ts hg ho]
+  cases hw : wrFinal lb.lines b (endLine lb e) Gen.WR_BATCH (fuelOf lb) (schedOf (afterOpen ed path) (endLine lb e - b)) with
+  | none => left; exact ⟨rfl, rfl⟩
+  | some st =>
+    right
+    refine ⟨st, rfl, ?_⟩
+    simp only []
+    cases hok : st.ok with
+    | false => left; simp
+    | true =>
+      right
+      by_cases hc : (afterWrite (afterOpen ed path) path (oldData ed.nextFault.2 path) (endLine lb e - b) st).nextFault.1 = 101
+      · left; simp [hc]
+      · right; simp [hc]
+
+/-! ### 1-3: the guards and the open -/
+
+/-- a file that is newer than the buffer's time stamp is never overwritten without `!`: the save is
+    refused and nothing changes -/
+theorem guard_newer (ed : Ed) (lb : Lb) (b : Nat) (e : Int) (path : Bytes) (ts : Int)
+    (h : ed.mtimeOf path > ts) :
+    lbufSave ed lb b e path false ts = some (some (strOf "write failed: file changed"), ed) := by
+  unfold lbufSave
+  simp [h]
+
+/-- a file that exists and was not read by this buffer (`ts ≤ 0`) is never overwritten without `!`:
+    the save is refused and nothing changes -/
+theorem guard_foreign (ed : Ed) (lb : Lb) (b : Nat) (e : Int) (path : Bytes) (ts : Int)
+    (hts : ts ≤ 0) (hex : ed.mtimeOf path ≥ 0) (hn : ¬ ed.mtimeOf path > ts) :
+    lbufSave ed lb b e path false ts = some (some (strOf "write failed: file exists"), ed) := by
+  unfold lbufSave
+  simp [hts, hex, hn]
+
+/-- when the guards do not pass, the save is refused with the state (hence the file system) unchanged -/
+theorem guards_fail (ed : Ed) (lb : Lb) (b : Nat) (e : Int) (path : Bytes) (force : Bool) (ts : Int)
+    (h : ¬ GuardsPass ed path force ts) :
+    ∃ msg, lbufSave ed lb b e path force ts = some (some msg, ed) := by
+  unfold GuardsPass at h
+  have hf : force = false := by cases force <;> simp_all
+  subst hf
+  by_cases h1 : ed.mtimeOf path > ts
+  · exact ⟨_, guard_newer ed lb b e path ts h1⟩
+  · have h2 : ts ≤ 0 ∧ ed.mtimeOf path ≥ 0 := by
+      apply Classical.byContradiction
+      intro h3; exact h (Or.inr ⟨h1, h3⟩)
+    exact ⟨_, guard_foreign ed lb b e path ts h2.1 h2.2 h1⟩
+
+/-- a failing `open` is reported and leaves every file as it was -/
+theorem open_failure_surfaces (ed : Ed) (lb : Lb) (b : Nat) (e : Int) (path : Bytes) (force : Bool) (ts : Int)
+    (hg : GuardsPass ed path force ts) (ho : ed.nextFault.1 = 101) :
+    ∃ ed', lbufSave ed lb b e path force ts = some (some (strOf "write failed: cannot create file"), ed') ∧
+      ed'.files = ed.files ∧ ed'.clock = ed.clock ∧ ed'.bufs = ed.bufs := by
+  have h1 : (!force && decide (ed.mtimeOf path > ts)) = false := by
+    rcases hg with h | ⟨h, _⟩ <;> simp [h]
+  have h2 : (!force && decide (ts ≤ 0) && decide (ed.mtimeOf path ≥ 0)) = false := by
+    rcases hg with h | ⟨_, h⟩
+    · simp [h]
+    · simp only [Bool.and_eq_false_iff, decide_eq_false_iff_not, Bool.and_assoc]
+      by_cases h3 : ts ≤ 0
+      · right; right; exact fun h4 => h ⟨h3, h4⟩
+      · right; left; exact h3
+  unfold lbufSave
+  simp only [h1, h2, Bool.false_eq_true, if_false]
+  have h3 : (ed.nextFault.1 == 101) = true := by simp [ho]
+  simp only [h3, if_true]
+  exact ⟨_, rfl, rfl, rfl, rfl⟩
+
+/-! ### 4: failing writes and a failing close are reported -/
+
+/-- a failing `write` is reported: if the write loop ends with `ok = false` the command never
+    reports success -/
+theorem write_failure_surfaces (ed : Ed) (lb : Lb) (b : Nat) (e : Int) (path : Bytes) (force : Bool) (ts : Int)
+    (hg : GuardsPass ed path force ts) (ho : ed.nextFault.1 ≠ 101) (st : WrState)
+    (hw : wrFinal lb.lines b (endLine lb e) Gen.WR_BATCH (fuelOf lb)
+      (schedOf (afterOpen ed path) (endLine lb e - b)) = some st)
+    (hok : st.ok = false) :
+    ∃ ed', lbufSave ed lb b e path force ts = some (some (strOf "write failed"), ed') := by
+  rcases lbufSave_cases ed lb b e path force ts hg ho with ⟨h, _⟩ | ⟨st', h, hc⟩
+  · rw [hw] at h; cases h
+  · rw [hw] at h; cases h
+    rcases hc with ⟨_, h⟩ | ⟨h1, _⟩ | ⟨h1, _⟩
+    · exact ⟨_, h⟩
+    · rw [hok] at h1; cases h1
+    · rw [hok] at h1; cases h1
+
+/-- a failing `close` after a complete write is reported as well -/
+theorem close_failure_surfaces (ed : Ed) (lb : Lb) (b : Nat) (e : Int) (path : Bytes) (force : Bool) (ts : Int)
+    (hg : GuardsPass ed path force ts) (ho : ed.nextFault.1 ≠ 101) (st : WrState)
+    (hw : wrFinal lb.lines b (endLine lb e) Gen.WR_BATCH (fuelOf lb)
+      (schedOf (afterOpen ed path) (endLine lb e - b)) = some st)
+    (hc : (afterWrite (afterOpen ed path) path (oldData ed.nextFault.2 path) (endLine lb e - b) st).nextFault.1 = 101) :
+    ∃ ed', lbufSave ed lb b e path force ts = some (some (strOf "write failed"), ed') := by
+  rcases lbufSave_cases ed lb b e path force ts hg ho with ⟨h, _⟩ | ⟨st', h, hc'⟩
+  · rw [hw] at h; cases h
+  · rw [hw] at h; cases h
+    rcases hc' with ⟨_, h⟩ | ⟨_, _, h⟩ | ⟨_, h1, _⟩
+    · exact ⟨_, h⟩
+    · exact ⟨_, h⟩
+    · exact absurd hc h1
+
+/-! ### 5: success means the file holds exactly the lines -/
+
+/-- a `write_fully` that reports success has passed on exactly the bytes it was given, whatever the
+    schedule of short counts was -/
+theorem writeFully_true : ∀ (fuel : Nat) (buf : Bytes) (sched : List WOut) (w : Bytes) (r : List WOut),
+    writeFully fuel buf sched = some (true, w, r) → w = buf := by
+  intro fuel
+  induction fuel with
+  | zero =>
+    intro buf sched w r h
+    simp only [writeFully] at h
+    split at h
+    · next hb => cases h; exact hb.symm
+    · cases h
+  | succ f ih =>
+    intro buf sched w r h
+    simp only [writeFully] at h
+    split at h
+    · next hb => cases h; exact hb.symm
+    · cases sched with
+      | nil => cases h; rfl
+      | cons o rest =>
+        cases o with
+        | err => cases h
+        | cnt k =>
+          simp only [] at h
+          cases h1 : writeFully f (buf.drop (min k buf.length)) rest with
+          | none => rw [h1] at h; cases h
+          | some res =>
+            obtain ⟨ok, w', r'⟩ := res
+            rw [h1] at h
+            simp only [Option.some.injEq, Prod.mk.injEq] at h
+            obtain ⟨hok, hw, _⟩ := h
+            subst hok
+            have := ih _ _ _ _ h1
+            rw [← hw, this]
+            exact List.take_append_drop _ _
+
+/-- loop invariant of `lbuf_wr` for arbitrary schedules: as long as no write failed, the bytes
+    passed on plus the coalescing buffer are the lines processed -/
+def OkInv (done : Bytes) (st : WrState) : Prop :=
+  st.ok = true → st.out ++ st.buf = done ∧ st.sz = done.length
+
+/-- a flush that reports success has emptied the coalescing buffer into the output -/
+theorem flush_inv (fuel : Nat) (st st1 : WrState) (done : Bytes) (h : flush fuel st = some st1)
+    (hi : st.out ++ st.buf = done ∧ st.sz = done.length) :
+    st1.ok = true → st1.out = done ∧ st1.buf = [] ∧ st1.sz = done.length := by
+  unfold flush at h
+  cases h1 : writeFully fuel st.buf st.sched with
+  | none => rw [h1] at h; cases h
+  | some res =>
+    obtain ⟨ok, w, r⟩ := res
+    rw [h1] at h
+    simp only [Option.some.injEq] at h
+    subst h
+    intro hok
+    simp only at hok
+    subst hok
+    have := writeFully_true _ _ _ _ _ h1
+    subst this
+    exact ⟨hi.1, rfl, hi.2⟩
+
+/-- a direct write that reports success has appended exactly the line -/
+theorem direct_inv (fuel : Nat) (st st1 : WrState) (ln : Bytes) (h : direct fuel st ln = some st1) :
+    st1.ok = true → st1.out = st.out ++ ln ∧ st1.buf = st.buf ∧ st1.sz = st.sz := by
+  unfold direct at h
+  cases h1 : writeFully fuel ln st.sched with
+  | none => rw [h1] at h; cases h
+  | some res =>
+    obtain ⟨ok, w, r⟩ := res
+    rw [h1] at h
+    simp only [Option.some.injEq] at h
+    subst h
+    intro hok
+    simp only at hok
+    subst hok
+    have := writeFully_true _ _ _ _ _ h1
+    subst this
+    exact ⟨rfl, rfl, rfl⟩
+
+/-- one iteration of the loop of `lbuf_wr` keeps `OkInv`, for every outcome of the `write` calls -/
+theorem wrStep_inv (batch fuel : Nat) (done : Bytes) (st st' : WrState) (ln : Bytes)
+    (h : wrStep batch fuel st ln = some st') (hi : OkInv done st) : OkInv (done ++ ln) st' := by
+  unfold wrStep at h
+  cases hok : st.ok with
+  | false =>
+    simp only [hok, Bool.not_false, if_true, Option.some.injEq] at h
+    subst h
+    intro h'; rw [hok] at h'; cases h'
+  | true =>
+    have hi0 := hi hok
+    simp only [hok, Bool.not_true, Bool.false_eq_true, if_false] at h
+    -- the flush
+    have s1 : ∀ r, (if (decide (st.buf.length > 0) && decide (st.buf.length + ln.length > batch)) = true
+          then flush fuel st else some st) = r →
+        r = none ∨ ∃ st1, r = some st1 ∧ (st1.ok = true → st1.out ++ st1.buf = done ∧ st1.sz = done.length ∧
+          (ln.length ≥ batch → st1.buf = [])) := by
+      intro r hr
+      by_cases hc : (decide (st.buf.length > 0) && decide (st.buf.length + ln.length > batch)) = true
+      · rw [if_pos hc] at hr
+        cases hf : flush fuel st with
+        | none => left; rw [← hr, hf]
+        | some st1 =>
+          right
+          refine ⟨st1, by rw [← hr, hf], ?_⟩
+          intro h1
+          obtain ⟨a, b', c⟩ := flush_inv fuel st st1 done hf hi0 h1
+          exact ⟨by rw [a, b']; simp, c, fun _ => b'⟩
+      · rw [if_neg hc] at hr
+        right
+        refine ⟨st, hr.symm, fun _ => ⟨hi0.1, hi0.2, ?_⟩⟩
+        intro hbig
+        simp only [Bool.and_eq_true, decide_eq_true_eq, not_and] at hc
+        cases hb : st.buf with
+        | nil => rfl
+        | cons x xs =>
+          have := hc (by rw [hb]; simp)
+          rw [hb] at this; simp at this; omega
+    rcases s1 _ rfl with h0 | ⟨st1, h1, hi1⟩
+    · rw [h0] at h; cases h
+    · rw [h1] at h
+      simp only [] at h
+      cases hok1 : st1.ok with
+      | false =>
+        simp only [hok1, Bool.not_false, if_true, Option.some.injEq] at h
+        subst h
+        intro h'; rw [hok1] at h'; cases h'
+      | true =>
+        obtain ⟨hb1, hs1, he1⟩ := hi1 hok1
+        simp only [hok1, Bool.not_true, Bool.false_eq_true, if_false] at h
+        by_cases hbig : ln.length ≥ batch
+        · rw [if_pos hbig] at h
+          cases hd : direct fuel st1 ln with
+          | none => rw [hd] at h; cases h
+          | some st2 =>
+            rw [hd] at h
+            simp only [] at h
+            cases hok2 : st2.ok with
+            | false =>
+              simp only [hok2, Bool.not_false, if_true, Option.some.injEq] at h
+              subst h
+              intro h'; rw [hok2] at h'; cases h'
+            | true =>
+              simp only [hok2, Bool.not_true, Bool.false_eq_true, if_false, Option.some.injEq] at h
+              subst h
+              obtain ⟨a, b', c⟩ := direct_inv fuel st1 st2 ln hd hok2
+              intro _
+              have he := he1 hbig
+              simp only [a, b', c, he, List.append_nil] at hb1 ⊢
+              exact ⟨by rw [hb1], by simp [hs1]⟩
+        · rw [if_neg hbig] at h
+          by_cases hroom : st1.buf.length + ln.length ≤ batch
+          · rw [if_pos hroom] at h
+            simp only [Bool.not_true, Bool.false_eq_true, if_false, Option.some.injEq] at h
+            subst h
+            intro _
+            exact ⟨by simp only []; rw [← List.append_assoc, hb1], by simp [hs1]⟩
+          · rw [if_neg hroom] at h; cases h
+
+/-- the loop of `lbuf_wr` keeps `OkInv` -/
+theorem wrLoop_inv (batch fuel : Nat) (ls : List Bytes) :
+    ∀ (done : Bytes) (st st' : WrState), wrLoop batch fuel ls st = some st' → OkInv done st →
+      OkInv (done ++ ls.flatten) st' := by
+  induction ls with
+  | nil => intro done st st' h hi; simp only [wrLoop, Option.some.injEq] at h; subst h; simpa using hi
+  | cons l ls ih =>
+    intro done st st' h hi
+    simp only [wrLoop] at h
+    cases h1 : wrStep batch fuel st l with
+    | none => rw [h1] at h; cases h
+    | some st1 =>
+      rw [h1] at h
+      have := ih (done ++ l) st1 st' h (wrStep_inv batch fuel done st st1 l h1 hi)
+      simpa using this
+
+/-- for *every* schedule of write outcomes (short counts, zero counts, errors): if the loop of
+    `lbuf_wr` and its final flush end without a failed write, the bytes that reached the
+    descriptor are exactly the lines and the recorded size is their length -/
+theorem wrFinal_ok_exact (lines : List Bytes) (b e batch fuel : Nat) (sched : List WOut) (st : WrState)
+    (h : wrFinal lines b e batch fuel sched = some st) (hok : st.ok = true) :
+    st.out = ((lines.drop b).take (e - b)).flatten ∧ st.sz = ((lines.drop b).take (e - b)).flatten.length ∧
+      e ≤ lines.length := by
+  unfold wrFinal at h
+  by_cases he : e > lines.length
+  · rw [if_pos he] at h; cases h
+  · rw [if_neg he] at h
+    cases h1 : wrLoop batch fuel ((lines.drop b).take (e - b)) ({ sched := sched } : WrState) with
+    | none => rw [h1] at h; cases h
+    | some st0 =>
+      rw [h1] at h
+      have hi := wrLoop_inv batch fuel _ [] _ st0 h1 (fun _ => ⟨rfl, rfl⟩)
+      simp only [List.nil_append] at hi
+      simp only [] at h
+      cases hok0 : st0.ok with
+      | false =>
+        simp only [hok0, Bool.not_false, if_true, Option.some.injEq] at h
+        subst h; rw [hok0] at hok; cases hok
+      | true =>
+        obtain ⟨hb, hs⟩ := hi hok0
+        simp only [hok0, Bool.not_true, Bool.false_eq_true, if_false] at h
+        by_cases hbuf : st0.buf.length > 0
+        · rw [if_pos hbuf] at h
+          obtain ⟨a, _, c⟩ := flush_inv fuel st0 st _ h ⟨hb, hs⟩ hok
+          exact ⟨a, c, by omega⟩
+        · rw [if_neg hbuf] at h
+          simp only [Option.some.injEq] at h
+          subst h
+          have : st0.buf = [] := by cases hb' : st0.buf <;> simp_all
+          rw [this] at hb; simp at hb
+          exact ⟨hb, hs, by omega⟩
+
+/-! the file system -/
+
+theorem find_put_aux (fs : List File) (f : File) :
+    (if fs.any (fun g => g.path == f.path) then fs.map (fun g => if g.path == f.path then f else g)
+      else fs ++ [f]).find? (fun g => g.path == f.path) = some f := by
+  induction fs with
+  | nil => simp
+  | cons g fs ih =>
+    by_cases hg : (g.path == f.path) = true
+    · simp only [List.any_cons, hg, Bool.true_or, if_true, List.map_cons]
+      rw [List.find?_cons_of_pos (by simp)]
+    · have hg' : (g.path == f.path) = false := by simpa using hg
+      simp only [List.any_cons, hg', Bool.false_or, List.map_cons, Bool.false_eq_true, if_false,
+        List.cons_append]
+      by_cases ha : fs.any (fun g => g.path == f.path) = true
+      · rw [if_pos ha] at ih ⊢
+        rw [List.find?_cons_of_neg (by simpa using hg')]
+        exact ih
+      · rw [if_neg ha] at ih ⊢
+        rw [List.find?_cons_of_neg (by simpa using hg')]
+        exact ih
+
+/-- after `putFile f` the path of `f` designates `f` -/
+theorem findFile_putFile (ed : Ed) (f : File) : (ed.putFile f).findFile f.path = some f := by
+  have := find_put_aux ed.files f
+  unfold Ed.putFile Ed.findFile
+  by_cases ha : ed.files.any (fun g => g.path == f.path) = true
+  · rw [if_pos ha] at this ⊢; exact this
+  · rw [if_neg ha] at this ⊢; exact this
+
+theorem putFile_faults (ed : Ed) (f : File) : (ed.putFile f).faults = ed.faults := by
+  unfold Ed.putFile; split <;> rfl
+theorem putFile_calls (ed : Ed) (f : File) : (ed.putFile f).calls = ed.calls := by
+  unfold Ed.putFile; split <;> rfl
+theorem putFile_clock (ed : Ed) (f : File) : (ed.putFile f).clock = ed.clock := by
+  unfold Ed.putFile; split <;> rfl
+theorem putFile_bufs (ed : Ed) (f : File) : (ed.putFile f).bufs = ed.bufs := by
+  unfold Ed.putFile; split <;> rfl
+
+/-- the file the path designates after the write calls -/
+theorem findFile_afterWrite (ed2 : Ed) (path old : Bytes) (n : Nat) (st : WrState) :
+    ∃ t, ((afterWrite ed2 path old n st).nextFault.2).findFile path =
+      some ⟨path, fileAfter old st.out (if st.ok then some st.sz else none), t⟩ :=
+  ⟨_, findFile_putFile ed2 ⟨path, _, _⟩⟩
+
+/-- whenever `lbuf_save` reports success, the file holds exactly the written lines, whatever it
+    held before and whatever short counts the `write` calls returned -/
+theorem success_exact (ed ed' : Ed) (lb : Lb) (b : Nat) (e : Int) (path : Bytes) (force : Bool) (ts : Int)
+    (h : lbufSave ed lb b e path force ts = some (none, ed')) :
+    (ed'.findFile path).map (·.data) = some (((lb.lines.drop b).take (endLine lb e - b)).flatten) := by
+  by_cases hg : GuardsPass ed path force ts
+  · by_cases ho : ed.nextFault.1 = 101
+    · obtain ⟨ed1, h1, _⟩ := open_failure_surfaces ed lb b e path force ts hg ho
+      rw [h1] at h; cases h
+    · rcases lbufSave_cases ed lb b e path force ts hg ho with ⟨_, h1⟩ | ⟨st, hw, hc⟩
+      · rw [h1] at h; cases h
+      · rcases hc with ⟨_, h1⟩ | ⟨_, _, h1⟩ | ⟨hok, _, h1⟩
+        · rw [h1] at h; cases h
+        · rw [h1] at h; cases h
+        · rw [h1] at h
+          simp only [Option.some.injEq, Prod.mk.injEq, true_and] at h
+          subst h
+          obtain ⟨t, ht⟩ := findFile_afterWrite (afterOpen ed path) path (oldData ed.nextFault.2 path) (endLine lb e - b) st
+          obtain ⟨h2, h3, _⟩ := wrFinal_ok_exact _ _ _ _ _ _ _ hw hok
+          rw [ht]
+          simp only [hok, if_true, Option.map_some, Option.some.injEq]
+          rw [h3, ← h2, wr_file]
+  · obtain ⟨msg, h1⟩ := guards_fail ed lb b e path force ts hg
+    rw [h1] at h; cases h
+
+/-! ### 6: short writes are completed -/
+
+/-- no error is scheduled for any call of the command (short counts and other kinds may be) -/
+def NoErr (ed : Ed) : Prop := ∀ f ∈ ed.faults, f.2 ≠ 101
+
+/-- without scheduled errors the next call does not fail -/
+theorem nextFault_ne (ed : Ed) (h : NoErr ed) : ed.nextFault.1 ≠ 101 := by
+  show (((ed.faults.find? (fun f => f.1 == ed.calls)).map (·.2)).getD 0) ≠ 101
+  cases hf : ed.faults.find? (fun f => f.1 == ed.calls) with
+  | none => simp
+  | some f => simpa using h f (List.mem_of_find?_eq_some hf)
+
+theorem afterOpen_faults (ed : Ed) (path : Bytes) : (afterOpen ed path).faults = ed.faults := by
+  show (ed.nextFault.2.putFile _).faults = _
+  rw [putFile_faults]; rfl
+
+theorem afterOpen_clock (ed : Ed) (path : Bytes) : (afterOpen ed path).clock = ed.clock + 1 := rfl
+
+theorem afterOpen_bufs (ed : Ed) (path : Bytes) : (afterOpen ed path).bufs = ed.bufs := by
+  show (ed.nextFault.2.putFile _).bufs = _
+  rw [putFile_bufs]; rfl
+
+theorem afterWrite_faults (ed2 : Ed) (path old : Bytes) (n : Nat) (st : WrState) :
+    (afterWrite ed2 path old n st).faults = ed2.faults := by
+  show (ed2.putFile _).faults = _
+  rw [putFile_faults]
+
+theorem afterWrite_bufs (ed2 : Ed) (path old : Bytes) (n : Nat) (st : WrState) :
+    (afterWrite ed2 path old n st).nextFault.2.bufs = ed2.bufs := by
+  show (ed2.putFile _).bufs = _
+  rw [putFile_bufs]
+
+/-- without scheduled errors, every scheduled write outcome is a count of at least one byte -/
+theorem schedOf_good (ed : Ed) (n : Nat) (h : NoErr ed) : GoodSched (schedOf ed n) := by
+  intro o ho
+  unfold schedOf at ho
+  simp only [List.mem_map, List.mem_range] at ho
+  obtain ⟨k, _, hk⟩ := ho
+  cases hf : ed.faults.find? (fun f => f.1 == ed.calls + k) with
+  | none =>
+    rw [hf] at hk
+    exact ⟨1000000000, hk.symm, by omega⟩
+  | some f =>
+    rw [hf] at hk
+    have hne : f.2 ≠ 101 := h f (List.mem_of_find?_eq_some hf)
+    simp only [Option.map_some] at hk
+    split at hk
+    · next hd =>
+      simp only [Bool.and_eq_true, decide_eq_true_eq] at hd
+      exact ⟨f.2 - 48, hk.symm, by omega⟩
+    · exact ⟨1000000000, hk.symm, by omega⟩
+
+theorem foldmax_ge (ls : List Bytes) : ∀ init : Nat,
+    init ≤ ls.foldl (fun m l => max m l.length) init ∧
+    ∀ l ∈ ls, l.length ≤ ls.foldl (fun m l => max m l.length) init := by
+  induction ls with
+  | nil => intro init; simp
+  | cons x ls ih =>
+    intro init
+    obtain ⟨h1, h2⟩ := ih (max init x.length)
+    simp only [List.foldl_cons, List.mem_cons]
+    refine ⟨by omega, ?_⟩
+    intro l hl
+    rcases hl with rfl | hl
+    · omega
+    · exact h2 l hl
+
+/-- the fuel of the model covers the batch size and the longest line -/
+theorem fuelOf_covers (lb : Lb) : Gen.WR_BATCH ≤ fuelOf lb ∧ ∀ l ∈ lb.lines, l.length ≤ fuelOf lb := by
+  obtain ⟨h1, h2⟩ := foldmax_ge lb.lines Gen.WR_BATCH
+  unfold fuelOf
+  refine ⟨by omega, ?_⟩
+  intro l hl
+  have := h2 l hl
+  omega
+
+/-- with no error scheduled, the write loop of `lbuf_save` finishes with every byte delivered, for
+    all short counts and with the fuel the model supplies -/
+theorem wrFinal_completes (ed2 : Ed) (lb : Lb) (b e' : Nat) (h : NoErr ed2) (he : e' ≤ lb.lines.length) :
+    ∃ st, wrFinal lb.lines b e' Gen.WR_BATCH (fuelOf lb) (schedOf ed2 (e' - b)) = some st ∧ st.ok = true := by
+  obtain ⟨hf, hl⟩ := fuelOf_covers lb
+  have hws := wr_stream lb.lines b e' Gen.WR_BATCH (fuelOf lb) (schedOf ed2 (e' - b)) he (by decide) hf hl
+    (schedOf_good ed2 _ h)
+  unfold wr at hws
+  cases hw : wrFinal lb.lines b e' Gen.WR_BATCH (fuelOf lb) (schedOf ed2 (e' - b)) with
+  | none => rw [hw] at hws; cases hws
+  | some st =>
+    rw [hw] at hws
+    refine ⟨st, rfl, ?_⟩
+    cases hok : st.ok with
+    | true => rfl
+    | false => simp [hok] at hws
+
+/-- short writes are retried until the data is out: if no call of the command has an error
+    scheduled, the guards pass and the range lies inside the buffer, `lbuf_save` succeeds -/
+theorem short_writes_complete (ed : Ed) (lb : Lb) (b : Nat) (e : Int) (path : Bytes) (force : Bool) (ts : Int)
+    (hg : GuardsPass ed path force ts) (hne : NoErr ed) (he : endLine lb e ≤ lb.lines.length) :
+    ∃ ed', lbufSave ed lb b e path force ts = some (none, ed') := by
+  have ho := nextFault_ne ed hne
+  have hne2 : NoErr (afterOpen ed path) := by unfold NoErr; rw [afterOpen_faults]; exact hne
+  obtain ⟨st, hw, hok⟩ := wrFinal_completes (afterOpen ed path) lb b (endLine lb e) hne2 he
+  rcases lbufSave_cases ed lb b e path force ts hg ho with ⟨h, _⟩ | ⟨st', h, hc⟩
+  · rw [hw] at h; cases h
+  · rw [hw] at h; cases h
+    rcases hc with ⟨h1, _⟩ | ⟨_, h1, _⟩ | ⟨_, _, h1⟩
+    · rw [hok] at h1; cases h1
+    · exfalso
+      refine nextFault_ne _ ?_ h1
+      unfold NoErr; rw [afterWrite_faults]; exact hne2
+    · exact ⟨_, h1⟩
+
+/-! ### failures leave the buffers alone -/
+
+/-- `lbuf_save` never touches the buffer table, whatever its outcome -/
+theorem lbufSave_bufs (ed ed' : Ed) (lb : Lb) (b : Nat) (e : Int) (path : Bytes) (force : Bool) (ts : Int)
+    (r : Option Bytes) (h : lbufSave ed lb b e path force ts = some (r, ed')) : ed'.bufs = ed.bufs := by
+  by_cases hg : GuardsPass ed path force ts
+  · by_cases ho : ed.nextFault.1 = 101
+    · obtain ⟨ed1, h1, _, _, hb⟩ := open_failure_surfaces ed lb b e path force ts hg ho
+      rw [h1] at h; cases h; exact hb
+    · have key : ∀ st, (afterWrite (afterOpen ed path) path (oldData ed.nextFault.2 path) (endLine lb e - b) st).nextFault.2.bufs
+          = ed.bufs := fun st => by rw [afterWrite_bufs, afterOpen_bufs]
+      rcases lbufSave_cases ed lb b e path force ts hg ho with ⟨_, h1⟩ | ⟨st, hw, hc⟩
+      · rw [h1] at h; cases h
+      · rcases hc with ⟨_, h1⟩ | ⟨_, _, h1⟩ | ⟨_, _, h1⟩ <;>
+        · rw [h1] at h; cases h; exact key st
+  · obtain ⟨msg, h1⟩ := guards_fail ed lb b e path force ts hg
+    rw [h1] at h; cases h; rfl
+
+/-! ### 7: retrying after a failure -/
+
+/-- `mtime(path)` looks at the file system only -/
+theorem mtimeOf_congr (ed1 ed2 : Ed) (path : Bytes) (h : ed1.files = ed2.files) :
+    ed1.mtimeOf path = ed2.mtimeOf path := by
+  unfold Ed.mtimeOf Ed.findFile; rw [h]
+
+/-- the guards look at the file system only -/
+theorem GuardsPass_congr (ed1 ed2 : Ed) (path : Bytes) (force : Bool) (ts : Int) (h : ed1.files = ed2.files) :
+    GuardsPass ed1 path force ts → GuardsPass ed2 path force ts := by
+  unfold GuardsPass; rw [mtimeOf_congr ed1 ed2 path h]; exact id
+
+/-- a save that fails before or at `open` (a guard refuses, or `open` fails) leaves the file system
+    and the clock as they were -/
+theorem failure_before_write_keeps_files (ed : Ed) (lb : Lb) (b : Nat) (e : Int) (path : Bytes) (force : Bool) (ts : Int)
+    (h : ¬ GuardsPass ed path force ts ∨ ed.nextFault.1 = 101) :
+    ∃ msg ed', lbufSave ed lb b e path force ts = some (some msg, ed') ∧ ed'.files = ed.files ∧ ed'.clock = ed.clock := by
+  by_cases hg : GuardsPass ed path force ts
+  · rcases h with h | h
+    · exact absurd hg h
+    · obtain ⟨ed', h1, h2, h3, _⟩ := open_failure_surfaces ed lb b e path force ts hg h
+      exact ⟨_, ed', h1, h2, h3⟩
+  · obtain ⟨msg, h1⟩ := guards_fail ed lb b e path force ts hg
+    exact ⟨msg, ed, h1, rfl, rfl⟩
+
+/-- after a failed `open` a retry with the same time stamp succeeds: in any later state with the
+    same files and no error scheduled the guards pass again and the save goes through -/
+theorem retry_after_open_error_succeeds (ed : Ed) (lb : Lb) (b : Nat) (e : Int) (path : Bytes) (force : Bool) (ts : Int)
+    (hg : GuardsPass ed path force ts) (ho : ed.nextFault.1 = 101) (he : endLine lb e ≤ lb.lines.length) :
+    ∃ ed', lbufSave ed lb b e path force ts = some (some (strOf "write failed: cannot create file"), ed') ∧
+      ∀ ed2 : Ed, ed2.files = ed'.files → NoErr ed2 →
+        ∃ ed3, lbufSave ed2 lb b e path force ts = some (none, ed3) := by
+  obtain ⟨ed', h1, h2, _, _⟩ := open_failure_surfaces ed lb b e path force ts hg ho
+  refine ⟨ed', h1, ?_⟩
+  intro ed2 hf hne
+  exact short_writes_complete ed2 lb b e path force ts
+    (GuardsPass_congr ed ed2 path force ts (by rw [hf, h2]) hg) hne he
+
+/-- once `open` has succeeded the editor itself has stamped the file: whatever happens afterwards
+    (success, failed write, failed close), the file's modification time is beyond the old clock -/
+theorem mtime_advanced (ed ed' : Ed) (lb : Lb) (b : Nat) (e : Int) (path : Bytes) (force : Bool) (ts : Int)
+    (hg : GuardsPass ed path force ts) (ho : ed.nextFault.1 ≠ 101) (r : Option Bytes)
+    (h : lbufSave ed lb b e path force ts = some (r, ed')) : ed'.mtimeOf path > ed.clock := by
+  have key : ∀ st, (afterWrite (afterOpen ed path) path (oldData ed.nextFault.2 path) (endLine lb e - b) st).nextFault.2.mtimeOf path
+      > ed.clock := by
+    intro st
+    unfold Ed.mtimeOf
+    have := findFile_putFile (afterOpen ed path) ⟨path, fileAfter (oldData ed.nextFault.2 path) st.out (if st.ok then some st.sz else none),
+      (afterOpen ed path).clock + (((schedOf (afterOpen ed path) (endLine lb e - b)).length - st.sched.length - (if st.ok then 0 else 1) : Nat) : Int)⟩
+    have h2 : (afterWrite (afterOpen ed path) path (oldData ed.nextFault.2 path) (endLine lb e - b) st).nextFault.2.findFile path = _ := this
+    rw [h2]
+    simp only [afterOpen_clock]
+    omega
+  rcases lbufSave_cases ed lb b e path force ts hg ho with ⟨_, h1⟩ | ⟨st, hw, hc⟩
+  · rw [h1] at h; cases h
+  · rcases hc with ⟨_, h1⟩ | ⟨_, _, h1⟩ | ⟨_, _, h1⟩ <;>
+    · rw [h1] at h; cases h; exact key st
+
+/-- **the true retry statement of the model (and of the C)**: after a save that failed during
+    `write` or `close`, the file carries a time stamp set by the editor itself; since `ec_write`
+    passes the buffer's recorded `mtime`, which is updated on success only, a plain retry with the
+    old time stamp (any `ts` not beyond the old clock) is refused as "file changed" with nothing
+    written; with `!` the retry goes through when no error is scheduled -/
+theorem retry_after_write_error_needs_force (ed ed' : Ed) (lb : Lb) (b : Nat) (e : Int) (path : Bytes) (force : Bool)
+    (ts : Int) (msg : Bytes)
+    (hg : GuardsPass ed path force ts) (ho : ed.nextFault.1 ≠ 101) (hts : ts ≤ ed.clock)
+    (h : lbufSave ed lb b e path force ts = some (some msg, ed')) :
+    (∀ ed2 : Ed, ed2.files = ed'.files →
+      lbufSave ed2 lb b e path false ts = some (some (strOf "write failed: file changed"), ed2)) ∧
+    (∀ ed2 : Ed, ed2.files = ed'.files → NoErr ed2 → endLine lb e ≤ lb.lines.length →
+      ∃ ed3, lbufSave ed2 lb b e path true ts = some (none, ed3)) := by
+  have hm := mtime_advanced ed ed' lb b e path force ts hg ho _ h
+  constructor
+  · intro ed2 hf
+    apply guard_newer
+    rw [mtimeOf_congr ed2 ed' path hf]
+    omega
+  · intro ed2 _ hne he
+    exact short_writes_complete ed2 lb b e path true ts (Or.inl rfl) hne he
+
+/-! ### the guards protect every existing file that is not the buffer's own -/
+
+/-- a file that exists is never overwritten by a buffer that did not read it (`ts ≤ 0`) unless
+    `!` is given; the state is unchanged.  (The message is "file changed" unless the file's time stamp
+    is exactly 0: see `guard_foreign_range`.) -/
+theorem foreign_refused (ed : Ed) (lb : Lb) (b : Nat) (e : Int) (path : Bytes) (ts : Int)
+    (hts : ts ≤ 0) (hex : ed.mtimeOf path ≥ 0) :
+    ∃ msg, lbufSave ed lb b e path false ts = some (some msg, ed) ∧
+      (msg = strOf "write failed: file changed" ∨ msg = strOf "write failed: file exists") := by
+  by_cases h : ed.mtimeOf path > ts
+  · exact ⟨_, guard_newer ed lb b e path ts h, Or.inl rfl⟩
+  · exact ⟨_, guard_foreign ed lb b e path ts hts hex h, Or.inr rfl⟩
+
+/-- the second guard ("file exists") is reached only for a file whose time stamp is 0 and `ts = 0`;
+    every other existing foreign file is caught by the first guard -/
+theorem guard_foreign_range (ed : Ed) (path : Bytes) (ts : Int)
+    (hts : ts ≤ 0) (hex : ed.mtimeOf path ≥ 0) (hn : ¬ ed.mtimeOf path > ts) : ed.mtimeOf path = 0 ∧ ts = 0 := by
+  omega
+
+/-! ### the `ec_write` level -/
+
+/-- the file system and the buffer table are the same in both states -/
+def Frame (ed ed' : Ed) : Prop := ed'.files = ed.files ∧ ed'.bufs = ed.bufs
+
+theorem Frame.refl (ed : Ed) : Frame ed ed := ⟨rfl, rfl⟩
+theorem Frame.trans {a b c : Ed} (h1 : Frame a b) (h2 : Frame b c) : Frame a c :=
+  ⟨h2.1.trans h1.1, h2.2.trans h1.2⟩
+
+theorem kwdSet_frame (ed : Ed) (k : Option Bytes) (d : Int) : Frame ed (ed.kwdSet k d) := ⟨rfl, rfl⟩
+
+/-- `ex_search` touches neither files nor buffers -/
+theorem exSearch_frame (ed ed' : Ed) (loc : Bytes) (r : Int × Bytes) (h : exSearch ed loc = some (r, ed')) :
+    Frame ed ed' := by
+  unfold exSearch at h
+  simp only [] at h
+  repeat' split at h
+  all_goals (try cases h)
+  all_goals first | exact Frame.refl _ | exact kwdSet_frame _ _ _
+
+/-- `ex_lineno` touches neither files nor buffers -/
+theorem exLineno_frame (ed ed' : Ed) (loc : Bytes) (r : Int × Bytes) (h : exLineno ed loc = some (r, ed')) :
+    Frame ed ed' := by
+  unfold exLineno at h
+  simp only [] at h
+  repeat' split at h
+  all_goals (try cases h)
+  all_goals
+    rename_i hq
+    repeat' split at hq
+  all_goals (try cases hq)
+  all_goals (try exact Frame.refl _)
+  all_goals
+    rename_i hs
+    exact exSearch_frame _ _ _ _ hs
+
+/-- the address loop of `ex_region` touches neither files nor buffers -/
+theorem exRegion_go_frame : ∀ (f : Nat) (ed ed' : Ed) (loc : Bytes) (naddr : Nat) (b e : Int) (r : Int × Int),
+    exRegion.go f ed loc naddr b e = some (r, ed') → Frame ed ed' := by
+  intro f
+  induction f with
+  | zero => intro ed ed' loc naddr b e r h; simp only [exRegion.go] at h; cases h; exact Frame.refl _
+  | succ f ih =>
+    intro ed ed' loc naddr b e r h
+    simp only [exRegion.go] at h
+    split at h
+    · cases h; exact Frame.refl _
+    · split at h
+      · cases h
+      · next n rest ed1 hl =>
+        have f1 := exLineno_frame _ _ _ _ hl
+        split at h
+        · cases h; exact f1
+        · split at h
+          · cases h; exact f1
+          · have f2 := ih _ _ _ _ _ _ _ h
+            refine Frame.trans f1 (Frame.trans ?_ f2)
+            split
+            · exact ⟨rfl, rfl⟩
+            · exact Frame.refl _
+
+/-- `ex_region` touches neither files nor buffers -/
+theorem exRegion_frame (ed ed' : Ed) (loc : Bytes) (r : Nat × Int × Int) (h : exRegion ed loc = some (r, ed')) :
+    Frame ed ed' := by
+  unfold exRegion at h
+  simp only [] at h
+  split at h
+  · cases h; exact Frame.refl _
+  · split at h
+    · cases h; exact Frame.refl _
+    · split at h
+      · cases h
+      · next b e ed1 hgo =>
+        have f1 := exRegion_go_frame _ _ _ _ _ _ _ _ hgo
+        repeat' split at h
+        all_goals (cases h; exact f1)
+
+/-- `ex_pathexpand` touches neither files nor buffers -/
+theorem pathExpand_frame (ed ed' : Ed) (src : Bytes) (sp : Bool) (r : Option Bytes)
+    (h : pathExpand ed src sp = some (r, ed')) : Frame ed ed' := by
+  unfold pathExpand at h
+  repeat' split at h
+  all_goals (try cases h)
+  all_goals first | exact Frame.refl _ | exact ⟨rfl, rfl⟩
+
+/-- the path `ec_write` resolves -/
+def writePath (ed : Ed) (arg : Bytes) : R (Option Bytes) :=
+  if !arg.isEmpty then pathExpand ed arg true else some (ed.cur.map (·.path), ed)
+
+/-- the line range `ec_write` passes to `lbuf_save` -/
+def writeRange (ed : Ed) (loc : Bytes) (b e : Int) : Int × Int :=
+  if loc.isEmpty then ((0 : Int), ed.len) else (b, e)
+
+/-- resolving the path of `:w` touches neither files nor buffers -/
+theorem writePath_frame (ed ed1 : Ed) (arg : Bytes) (r : Option Bytes) (h : writePath ed arg = some (r, ed1)) :
+    Frame ed ed1 := by
+  unfold writePath at h
+  split at h
+  · exact pathExpand_frame _ _ _ _ _ h
+  · cases h; exact Frame.refl _
+
+/-- failures surface and the buffer stays dirty: when `lbuf_save` fails inside `:w`, the command
+    returns 1 with the error text shown, and the buffer table — the text, the undo state that
+    decides `modified`, and the recorded `mtime` of every buffer — is exactly what it was before
+    the command (no `lbuf_saved`) -/
+theorem ecWrite_failure (ed ed1 ed2 ed3 : Ed) (loc cmd arg path err : Bytes) (b e : Int) (cur : Buf)
+    (hp : writePath ed arg = some (some path, ed1)) (hx : cmd.headD 0 ≠ 120)
+    (hr : exRegion ed1 loc = some ((0, b, e), ed2)) (hc : ed2.cur = some cur) (hsh : path.headD 0 ≠ 33)
+    (hs : lbufSave ed2 cur.lb (writeRange ed2 loc b e).1.toNat (writeRange ed2 loc b e).2 path (hasBang cmd)
+      (if cur.path == path then cur.mtime else 0) = some (some err, ed3)) :
+    ecWrite ed loc cmd arg = some (1, ed3.show err) ∧ (ed3.show err).bufs = ed.bufs := by
+  have f1 := writePath_frame _ _ _ _ hp
+  have f2 := exRegion_frame _ _ _ _ hr
+  have f3 := lbufSave_bufs _ _ _ _ _ _ _ _ _ hs
+  refine ⟨?_, ?_⟩
+  · unfold writePath at hp
+    unfold ecWrite
+    simp only [hp]
+    have hx' : (cmd.headD 0 == 120) = false := by simpa using hx
+    simp only [hx', Bool.false_eq_true, if_false, hr]
+    have hsh' : (path.headD 0 == 33) = false := by simpa using hsh
+    unfold writeRange at hs
+    simp only [bne_self_eq_false, Option.isNone_some, Bool.or_false, Bool.false_eq_true, if_false, hc,
+      Option.getD_some, hsh', hs]
+  · show ed3.bufs = ed.bufs
+    rw [f3, f2.2, f1.2]
+
+/-- `:w path` without `!` never overwrites an existing file that is not the current buffer's own:
+    the command fails with the file system and the buffers unchanged -/
+theorem ecWrite_foreign_refused (ed ed1 ed2 : Ed) (loc cmd arg path : Bytes) (b e : Int) (cur : Buf)
+    (hp : writePath ed arg = some (some path, ed1)) (hx : cmd.headD 0 ≠ 120)
+    (hr : exRegion ed1 loc = some ((0, b, e), ed2)) (hc : ed2.cur = some cur) (hsh : path.headD 0 ≠ 33)
+    (hbang : hasBang cmd = false) (hforeign : cur.path ≠ path) (hex : ed.mtimeOf path ≥ 0) :
+    ∃ ed', ecWrite ed loc cmd arg = some (1, ed') ∧ ed'.files = ed.files ∧ ed'.bufs = ed.bufs := by
+  have f1 := writePath_frame _ _ _ _ hp
+  have f2 := exRegion_frame _ _ _ _ hr
+  have hex2 : ed2.mtimeOf path ≥ 0 := by
+    rw [mtimeOf_congr ed2 ed path (by rw [f2.1, f1.1])]; exact hex
+  have hts : (if cur.path == path then cur.mtime else 0) = (0 : Int) := by
+    have : (cur.path == path) = false := by simpa using hforeign
+    simp [this]
+  obtain ⟨msg, hs, _⟩ := foreign_refused ed2 cur.lb (writeRange ed2 loc b e).1.toNat (writeRange ed2 loc b e).2 path 0
+    (Int.le_refl 0) hex2
+  have := ecWrite_failure ed ed1 ed2 ed2 loc cmd arg path msg b e cur hp hx hr hc hsh (by rw [hbang, hts]; exact hs)
+  exact ⟨_, this.1, by show ed2.files = ed.files; rw [f2.1, f1.1], this.2⟩
+
+/-! ### non-vacuity -/
+
+def exLb : Lb := { lines := [[97, 10], [98, 99, 10]] }
+def exEd : Ed := { files := [⟨[102], [120, 10], 1500⟩, ⟨[103], [], 0⟩], clock := 2000 }
+def exView (r : Option Bytes × Ed) : Option Bytes × List File := (r.1, r.2.files)
+
+-- refused: the file is newer than the buffer's time stamp
+example : (lbufSave exEd exLb 0 (-1) [102] false 1200).map exView =
+    some (some (strOf "write failed: file changed"), exEd.files) := by decide +kernel
+-- refused: a foreign file
+example : (lbufSave exEd exLb 0 (-1) [102] false 0).map exView =
+    some (some (strOf "write failed: file changed"), exEd.files) := by decide +kernel
+example : (lbufSave exEd exLb 0 (-1) [103] false 0).map exView =
+    some (some (strOf "write failed: file exists"), exEd.files) := by decide +kernel
+-- success replaces the content, whatever it was
+example : (lbufSave exEd exLb 0 (-1) [102] false 1500).map exView =
+    some (none, [⟨[102], [97, 10, 98, 99, 10], 2002⟩, ⟨[103], [], 0⟩]) := by decide +kernel
+-- short counts (1 byte, then 2 bytes) are completed
+example : (lbufSave { exEd with faults := [(1, 49), (2, 50)] } exLb 0 (-1) [102] false 1500).map exView =
+    some (none, [⟨[102], [97, 10, 98, 99, 10], 2004⟩, ⟨[103], [], 0⟩]) := by decide +kernel
+-- an `open` error
+example : (lbufSave { exEd with faults := [(0, 101)] } exLb 0 (-1) [102] false 1500).map exView =
+    some (some (strOf "write failed: cannot create file"), exEd.files) := by decide +kernel
+-- a write error after one byte: reported; the file is damaged and stamped
+example : (lbufSave { exEd with faults := [(1, 49), (2, 101)] } exLb 0 (-1) [102] false 1500).map exView =
+    some (some (strOf "write failed"), [⟨[102], [97, 10], 2002⟩, ⟨[103], [], 0⟩]) := by decide +kernel
+-- a close error: reported although the data is complete
+example : (lbufSave { exEd with faults := [(2, 101)] } exLb 0 (-1) [102] false 1500).map exView =
+    some (some (strOf "write failed"), [⟨[102], [97, 10, 98, 99, 10], 2002⟩, ⟨[103], [], 0⟩]) := by decide +kernel
+-- the retry with the old time stamp is refused, the forced retry goes through
+example : ((lbufSave { exEd with faults := [(1, 49), (2, 101)] } exLb 0 (-1) [102] false 1500).bind
+      (fun r => lbufSave { r.2 with faults := [], calls := 0 } exLb 0 (-1) [102] false 1500)).map exView =
+    some (some (strOf "write failed: file changed"), [⟨[102], [97, 10], 2002⟩, ⟨[103], [], 0⟩]) := by decide +kernel
+example : ((lbufSave { exEd with faults := [(1, 49), (2, 101)] } exLb 0 (-1) [102] false 1500).bind
+      (fun r => lbufSave { r.2 with faults := [], calls := 0 } exLb 0 (-1) [102] true 1500)).map exView =
+    some (none, [⟨[102], [97, 10, 98, 99, 10], 2004⟩, ⟨[103], [], 0⟩]) := by decide +kernel
+
+/-- the same at the `:w` level: buffer "f" read at time 1500 -/
+def exEd2 : Ed := { bufs := [some { path := [102], lb := exLb, mtime := 1500 }] ++ List.replicate 15 none,
+                    files := [⟨[102], [120, 10], 1500⟩, ⟨[103], [], 0⟩], clock := 2000 }
+def exView2 (r : Int × Ed) : Int × Bytes × List File × Option Int :=
+  (r.1, r.2.msg, r.2.files, r.2.cur.map (·.mtime))
+
+-- `:w` with a write error: rc 1, message, recorded mtime still 1500
+example : (ecWrite { exEd2 with faults := [(1, 49), (2, 101)] } [] (strOf "w") []).map exView2 =
+    some (1, strOf "write failed\n", [⟨[102], [97, 10], 2002⟩, ⟨[103], [], 0⟩], some 1500) := by decide +kernel
+-- a second `:w` is refused: the editor's own partial write made the file "newer"
+example : ((ecWrite { exEd2 with faults := [(1, 49), (2, 101)] } [] (strOf "w") []).bind
+     (fun r => ecWrite { r.2 with faults := [], calls := 0, msg := [] } [] (strOf "w") [])).map exView2 =
+    some (1, strOf "write failed: file changed\n", [⟨[102], [97, 10], 2002⟩, ⟨[103], [], 0⟩], some 1500) := by
+  decide +kernel
+-- `:w!` repairs the file
+example : ((ecWrite { exEd2 with faults := [(1, 49), (2, 101)] } [] (strOf "w") []).bind
+     (fun r => ecWrite { r.2 with faults := [], calls := 0, msg := [] } [] (strOf "w!") [])).map exView2 =
+    some (0, strOf "\"f\"  [=2]  [w]\n", [⟨[102], [97, 10, 98, 99, 10], 2004⟩, ⟨[103], [], 0⟩], some 2004) := by
+  decide +kernel
+-- `:w g` onto an existing foreign file is refused
+example : (ecWrite exEd2 [] (strOf "w") [103]).map exView2 =
+    some (1, strOf "write failed: file exists\n", exEd2.files, some 1500) := by decide +kernel
+
 end Neatvi.Props.C03
